@@ -4,7 +4,8 @@
 (*  replay : a history of AcceptLimit.tla stepped on the real acceptor AE; *)
 (*     o = [id, kind |-> "replay", max, steps : Seq([act, t, ok, nest      *)
 (*          (established acceptor associations after the step), decision   *)
-(*          ("accept" / "reject" / ""), rj (<<result, source, reason>> the  *)
+(*          ("accept" / "reject" / ""), bad (the request also names a wrong *)
+(*          called AE title), rj (<<result, source, reason>> the            *)
 (*          peer read, or <<>>)]), max_seen]                               *)
 (*     judged by re-running the specification's own reading along the      *)
 (*     recorded steps (the count is the number of alive threads)           *)
@@ -29,11 +30,13 @@ ReplayV(o) ==
   LET S == o.steps IN
   IF \E k \in 1..Len(S) : S[k].nest > o.max THEN "C14_Bound"
   ELSE IF o.max_seen > o.max THEN "C14_Bound"
-  \* a request that was rejected (the peer read an A-ASSOCIATE-RJ) carries the local-limit reason
-  ELSE IF \E k \in 1..Len(S) : S[k].rj # <<>> /\ S[k].rj # LimitReason THEN "C14_Reason"
+  \* a request that was rejected (the peer read an A-ASSOCIATE-RJ) over the limit carries the local-limit reason - also when
+  \* it is unacceptable for another reason (bad); under the limit only a bad request is rejected, with its own reason
+  ELSE IF \E k \in 1..Len(S) : S[k].rj # <<>> /\ S[k].rj # LimitReason /\
+             (~S[k].bad \/ \E j \in 1..k : S[j].act = "check" /\ S[j].t = S[k].t /\ Cardinality(AliveAfter(S, j)) > o.max) THEN "C14_Reason"
   \* the decision follows the specification's reading: reject iff the alive acceptor threads (itself included) exceed the maximum
-  ELSE IF \E k \in 1..Len(S) : S[k].act = "check" /\ S[k].decision = "accept" /\ Cardinality(AliveAfter(S, k)) > o.max THEN "DRIFT_AcceptedOverCount"
-  ELSE IF \E k \in 1..Len(S) : S[k].act = "check" /\ S[k].decision = "reject" /\ Cardinality(AliveAfter(S, k)) <= o.max THEN "DRIFT_RejectedUnderCount"
+  ELSE IF \E k \in 1..Len(S) : S[k].act = "check" /\ S[k].decision = "accept" /\ (S[k].bad \/ Cardinality(AliveAfter(S, k)) > o.max) THEN "DRIFT_AcceptedOverCount"
+  ELSE IF \E k \in 1..Len(S) : S[k].act = "check" /\ S[k].decision = "reject" /\ ~S[k].bad /\ Cardinality(AliveAfter(S, k)) <= o.max THEN "DRIFT_RejectedUnderCount"
   ELSE IF \E k \in 1..Len(S) : ~S[k].ok THEN "DRIFT_StepNotReached"
   ELSE "ok"
 StressV(o) ==
